@@ -46,12 +46,48 @@ def _apply(repo_root, variant):
     return tmp
 
 
+VERIF_ROOT = os.path.dirname(os.path.dirname(os.path.dirname(os.path.abspath(__file__))))
+
+
+def _apply_patch(repo_root, patch):
+    """Scratch copy of xgi/ with a recorded patch (seeded change or refactoring) applied; None if it no longer applies."""
+    import subprocess
+
+    tmp = tempfile.mkdtemp(prefix="xgi_selftest_")
+    shutil.copytree(os.path.join(repo_root, "xgi"), os.path.join(tmp, "xgi"), ignore=shutil.ignore_patterns("__pycache__"))
+    r = subprocess.run(["git", "apply", "--include=xgi/*", os.path.abspath(patch)], cwd=tmp, capture_output=True, env={**os.environ, "GIT_CEILING_DIRECTORIES": os.path.dirname(tmp)})
+    if r.returncode != 0:
+        shutil.rmtree(tmp, ignore_errors=True)
+        return None
+    return tmp
+
+
+def recorded_patches(prop):
+    """Variants from the recorded patches: the seeded changes of this property (must be reported) and the
+    behaviour-preserving refactorings produced by independent agents (must stay silent)."""
+    import glob
+    import json
+
+    out = []
+    for meta in sorted(glob.glob(os.path.join(VERIF_ROOT, "seeded", "*", "meta.json"))):
+        try:
+            m = json.load(open(meta))
+        except Exception:  # noqa: BLE001
+            continue
+        if m.get("property") == prop:
+            d = os.path.dirname(meta)
+            out.append({"name": "seeded-" + os.path.basename(d), "kind": "mutant", "patch": os.path.join(d, "patch.diff")})
+    for pf in sorted(glob.glob(os.path.join(VERIF_ROOT, "refactors", "*.diff"))):
+        out.append({"name": "refactor-" + os.path.basename(pf)[:-5], "kind": "refactoring", "patch": pf})
+    return out
+
+
 def _run_variant(args):
     prop, repo_root, variant = args
     from .. import cli
     from ..model import AnalysisError
 
-    tmp = _apply(repo_root, variant)
+    tmp = _apply_patch(repo_root, variant["patch"]) if "patch" in variant else _apply(repo_root, variant)
     if tmp is None:
         return (variant["name"], "skipped", "anchor absent in the current tree")
     if tmp == "SYNTAX":
@@ -121,7 +157,7 @@ def _run_snapshot(args):
 def run_selftest(prop, repo_root, seed=0, jobs=16):
     from . import variants as V
 
-    vs = V.variants_for(prop)
+    vs = V.variants_for(prop) + recorded_patches(prop)
     t0 = time.time()
     if not vs:
         return 0, [f"[{prop}] self-test: no variants registered"]
